@@ -27,6 +27,7 @@ type c06Case struct {
 	LongKey string            `json:"long_value_key,omitempty"` // the value under this key is regenerated with LongLen bytes
 	LongInt int               `json:"long_int_key,omitempty"`   // -1: none
 	LongLen int               `json:"long_len,omitempty"`
+	Tiny    int               `json:"tiny_entries,omitempty"` // StrInfo = the empty key plus this many - 1 one-byte keys, every value empty (the smallest entries there are)
 	Many    int               `json:"many_entries,omitempty"` // this many generated entries in BOTH maps (more than any fixed budget an encoder or decoder might have)
 	Payload int               `json:"payload_len"`
 	Writer  string            `json:"writer"` // tobytes | bytes | default
@@ -55,6 +56,16 @@ func (k *c06Case) params() ttheader.EncodeParam {
 		p.StrInfo = map[string]string{}
 		for a, b := range k.Str {
 			p.StrInfo[a] = b
+		}
+	}
+	for i := 0; i < k.Tiny; i++ {
+		if p.StrInfo == nil {
+			p.StrInfo = map[string]string{}
+		}
+		if i == 0 {
+			p.StrInfo[""] = ""
+		} else {
+			p.StrInfo[string(rune('a'+i-1))] = ""
 		}
 	}
 	for i := 0; i < k.Many; i++ {
@@ -127,7 +138,13 @@ func c06One(c *mc.Ctx, k c06Case) (encoded bool) {
 			if k.Writer == "zc" {
 				// a conforming zero-copy writer: WriteBinary keeps a reference until Flush
 				sink = &EnvWriter{}
-				w = &zcWriter{sink: sink}
+				// the caller's parameter maps are read-only for Encode at every moment, not only once it has returned (another
+				// goroutine may be encoding with the same maps): they are looked at whenever Encode calls into the writer
+				w = &zcWriter{sink: sink, OnOp: func() {
+					if !mapsEqStr(p.StrInfo, snapStr) || !mapsEqInt(p.IntInfo, snapInt) {
+						bad("params-modified", "in the middle of Encode (at a call into the writer) the caller's parameter maps differ from what was passed in (StrInfo %d -> %d entries, IntInfo %d -> %d)", len(snapStr), len(p.StrInfo), len(snapInt), len(p.IntInfo))
+					}
+				}}
 			} else if k.Writer == "bytes" {
 				// initial slice shapes: spare room, no spare room, room for exactly the 14-byte meta block
 				switch (int(k.Flags) + k.Payload + len(p.StrInfo)) % 3 {
@@ -258,6 +275,17 @@ func c06One(c *mc.Ctx, k c06Case) (encoded bool) {
 		if d.PayloadLen != len(payload) {
 			bad("payload-len", "decoded PayloadLen %d, the payload has %d bytes (total length field + 4 - header length)", d.PayloadLen, len(payload))
 			return
+		}
+		// the same header announcing payloads of every magnitude (the field has 32 bits; the payload itself is not needed to
+		// decode the header): the payload is delimited exactly
+		for _, total := range []uint32{uint32(len(frame)) - 4, 0x00ffffff, 0x3fffffff, 0x40000000, 0x7fffffff, 0x80000000, 0xfffffff0} {
+			hdr := append([]byte{}, frame...)
+			binary.BigEndian.PutUint32(hdr, total)
+			d2, err := ttheader.DecodeFromBytes(ctx, hdr)
+			if want := int(int64(total) + 4 - int64(len(frame))); err != nil || d2.HeaderLen != len(frame) || d2.PayloadLen != want {
+				bad("payload-len", "with the total-length field set to %#x the header decodes to (HeaderLen %d, PayloadLen %d, %v), want PayloadLen = total + 4 - header length = %d", total, d2.HeaderLen, d2.PayloadLen, err, want)
+				return
+			}
 		}
 		if uint16(d.Flags) != k.Flags || d.SeqID != k.Seq || uint8(d.ProtocolID) != k.Proto {
 			bad("fields", "decoded flags/seq/protocol %#x/%d/%d", d.Flags, d.SeqID, d.ProtocolID)
@@ -446,6 +474,21 @@ func c06Run(c *mc.Ctx) {
 		}
 	}
 	c.Done("maps of 3..2000 entries in both sections on every writer, bytes- and stream-backed decode")
+	// (1c) the smallest entries there are: empty key, one-byte keys, empty values; 1..13 of them (every padding residue,
+	//      with and without the other sections)
+	for n := 1; n <= 13; n++ {
+		if !c.Mine() {
+			continue
+		}
+		for _, w := range []string{"tobytes", "default", "zc"} {
+			c.Distinct("tiny", n, w)
+			c06One(c, c06Case{Flags: 0, Seq: int32(n), Proto: 0, LongInt: -1, Tiny: n, Payload: 3, Writer: w})
+			c06One(c, c06Case{Flags: 0, Seq: int32(n), Proto: 0, LongInt: -1, Tiny: n, Payload: 3, Writer: w, Stream: true, Env: EnvCfg{Chunk: 3}})
+			c06One(c, c06Case{Flags: 0, Seq: int32(n), Proto: 0, LongInt: -1, Tiny: n, Int: map[uint16]string{7: ""}, Payload: 3, Writer: w})
+			c06One(c, c06Case{Flags: 0, Seq: int32(n), Proto: 0, LongInt: -1, Tiny: n, Str: map[string]string{ttheader.GDPRToken: "t"}, Payload: 3, Writer: w})
+		}
+	}
+	c.Done("string sections made of the smallest possible entries (empty key, one-byte keys, empty values), 1..13 entries")
 	// (2) info maps: all maps with <= 2 (thorough 3) entries over the key/value alphabets; every padding residue occurs
 	maxE := 2
 	if th {
